@@ -226,7 +226,7 @@ fn parse_op(s: &str) -> Option<Op> {
 pub enum Kind {
     /// `cleanup`: built with `new_with_cleanup` (what `MultiLayerCacheImpl` uses for its memory
     /// layer) on a runtime with a paused clock, like the disk cache with background tasks
-    Mem { policy: EvictionPolicy, max_entries: usize, max_bytes: Option<usize>, cleanup: bool },
+    Mem { policy: EvictionPolicy, max_entries: usize, max_bytes: Option<usize>, cleanup: bool, metrics_off: bool },
     /// `background`: built with `new_with_background_tasks` (what `MultiLayerCacheImpl` uses
     /// for its disk layers) on a runtime with a paused clock; `max_files` is only enforced by
     /// the background cleanup
@@ -628,9 +628,11 @@ fn value_for(seed: u64, step: usize, size: u32) -> Bytes {
 
 fn open_cache(kind: &Kind, dir: &Path) -> Result<Box<dyn AsyncCache<TKey>>, String> {
     match kind {
-        Kind::Mem { policy, max_entries, max_bytes, cleanup } => {
+        Kind::Mem { policy, max_entries, max_bytes, cleanup, metrics_off } => {
             let mut cfg = MemoryCacheConfig::new().with_max_entries(*max_entries).with_eviction_policy(policy.clone());
             cfg.max_memory_bytes = *max_bytes;
+            // statistics collection is optional; the books (size, usage, limits) are not
+            cfg.enable_metrics = !*metrics_off;
             cfg.default_ttl = None; // put() then uses the built-in 1 h
             if *cleanup {
                 // the cleanup task ticks every CLEANUP_INTERVAL of the paused clock (`Op::Tick`)
@@ -991,12 +993,13 @@ impl SeqSubject for Subject {
 
     fn config_name(&self) -> String {
         match &self.kind {
-            Kind::Mem { policy, max_entries, max_bytes, cleanup } => format!(
-                "mem(policy={},max_entries={},max_bytes={}{})",
+            Kind::Mem { policy, max_entries, max_bytes, cleanup, metrics_off } => format!(
+                "mem(policy={},max_entries={},max_bytes={}{}{})",
                 policy_name(policy),
                 max_entries,
                 max_bytes.map_or("none".to_string(), |b| b.to_string()),
-                if *cleanup { ",cleanup=true" } else { "" }
+                if *cleanup { ",cleanup=true" } else { "" },
+                if *metrics_off { ",metrics=false" } else { "" }
             ),
             Kind::Disk { subdirs, background: false, .. } => format!("disk(subdirs={subdirs})"),
             Kind::Disk { subdirs, background: true, max_files } => format!("disk(subdirs={subdirs},background=true,max_files={max_files})"),
@@ -1172,7 +1175,7 @@ fn mem_subject(policy: EvictionPolicy, max_entries: usize, max_bytes: Option<usi
     let sizes_ttl0 = if rich { vec![1, 100] } else { vec![100] };
     let sizes_hour = if rich { vec![1] } else { vec![] };
     Subject {
-        kind: Kind::Mem { policy, max_entries, max_bytes, cleanup: false },
+        kind: Kind::Mem { policy, max_entries, max_bytes, cleanup: false, metrics_off: false },
         keys: (0..nkeys).collect(),
         sizes,
         sizes_ttl0,
@@ -1201,6 +1204,15 @@ fn mem_cleanup_subject(policy: EvictionPolicy, max_entries: usize, max_bytes: Op
         *cleanup = true;
     }
     s.sizes_ttl0 = vec![1, 100];
+    s
+}
+
+/// Memory cache with statistics collection switched off (`enable_metrics = false`).
+fn mem_metrics_off_subject(policy: EvictionPolicy, max_entries: usize, max_bytes: Option<usize>, nkeys: u8, seed: u64) -> Subject {
+    let mut s = mem_subject(policy, max_entries, max_bytes, nkeys, seed, false);
+    if let Kind::Mem { metrics_off, .. } = &mut s.kind {
+        *metrics_off = true;
+    }
     s
 }
 
@@ -1281,12 +1293,16 @@ pub fn run(tier: Tier, seed: u64) -> i32 {
             subjects.push((disk_ttl_subject(false, seed), 4));
             subjects.push((disk_background_subject(false, DISK_MAX_FILES, 2, seed), 4));
             subjects.push((disk_background_subject(true, 1, 2, seed), 4));
-            // the memory cache with its cleanup task
+            // the memory cache with its cleanup task, and with statistics collection off
             subjects.push((mem_cleanup_subject(Lru, 2, None, 3, seed), 4));
+            subjects.push((mem_metrics_off_subject(Lru, 2, Some(150), 3, seed), 4));
         }
         Tier::Thorough => {
             subjects.push((mem_cleanup_subject(Lru, 2, None, 3, seed), 5));
             subjects.push((mem_cleanup_subject(Fifo, UNLIMITED_ENTRIES, Some(150), 3, seed), 4));
+            for policy in [Lru, Lfu, Fifo, Random] {
+                subjects.push((mem_metrics_off_subject(policy, 2, Some(150), 3, seed), 4));
+            }
             // the whole grid at depth 4
             for policy in [Lru, Lfu, Fifo, Random] {
                 for me in [1usize, 2, 3, UNLIMITED_ENTRIES, usize::MAX] {
@@ -1474,6 +1490,7 @@ fn parse_config(cfg: &str) -> Option<Kind> {
                 s => Some(s.parse().ok()?),
             },
             cleanup: kv.get("cleanup").is_some_and(|v| v == "true"),
+            metrics_off: kv.get("metrics").is_some_and(|v| v == "false"),
         })
     } else if cfg.starts_with("disk(") {
         Some(Kind::Disk {
